@@ -231,6 +231,11 @@ def check_inv_root(name: str, F_post: torch.Tensor, X_post: torch.Tensor, root: 
     X = X_post.to(D)
     if not bool(torch.isfinite(X).all()):
         return Comp(name + ".finite", float("inf"), 1.0)
+    # a root whose entries lie in (or near) the subnormal range of its storage dtype carries an absolute, not a relative, rounding error (a diverged
+    # history: factor ~1e23, root ~3e-43 in float32): the same floor as in comp(), relative to the size of the exact root
+    xr_norm = float(torch.linalg.matrix_norm(Xr, 2)) if n > 1 else float(Xr.abs().max())
+    if X_post.dtype.is_floating_point and xr_norm > 0:
+        bound = bound + 4.0 * float(torch.finfo(X_post.dtype).tiny) * n / xr_norm
     err = float(torch.linalg.matrix_norm(X - Xr, 2) / torch.linalg.matrix_norm(Xr, 2)) if n > 1 else float((X - Xr).abs().max() / Xr.abs().max())
     return Comp(name, err, bound, informative=bound < UNINFORMATIVE)
 
@@ -360,6 +365,10 @@ def predict_block(prev: BlockSnap, post: BlockSnap, g_raw: torch.Tensor, w_raw: 
             nsum = sum(M.shape[0] for M in mats)
             ds = mode_apply(gbar, mats, sel)
             e_ds = uniform_err(ds, P * (fro(e) + nsum * ep * fro(gbar))) if mats else e
+            # the mode products are formed one root after the other in the block dtype: an intermediate (or the rounding noise carried through roots of
+            # enormous norm, e.g. eps^(-1.82) = 1e22 per rank-deficient factor) may leave the finite range although the exact result is moderate
+            if mats and (math.prod(max(1.0, spec_norm(M)) for M in mats) * _amax(gbar) > lim or fro(e_ds) > lim):
+                return [Comp("overflow_domain", 0.0, 1.0, informative=False, hard=False)]
         d, e_d = ds, e_ds
         peaks.append(_amax(ds))
         if soap:
